@@ -5,6 +5,7 @@ package sim
 import (
 	"encoding/json"
 	"fmt"
+	"sync"
 )
 
 func schedRun(raw json.RawMessage) (interface{}, error) {
@@ -12,3 +13,6 @@ func schedRun(raw json.RawMessage) (interface{}, error) {
 }
 
 func init() { Register("schedrun", schedRun) }
+
+// newRepoMutex: a mutex of the type the siglens packages use in this build.
+func newRepoMutex() *sync.Mutex { return &sync.Mutex{} }
